@@ -1115,6 +1115,12 @@ class Extractor:
             subpaths = self.block(body, [sub], b2)
         returning = [q for q in subpaths if q.done and not any(e[0] == 'continue' for e in q.effects)]
         effectful = [q for q in subpaths if [e for e in q.effects if e[0] != 'continue']]
+        if len(returning) > 1 and not effectful and len({(repr(q.ret), q.raised) for q in returning}) == 1:
+            # several exits with the same result: one exit under the disjunction of their conditions
+            merged = returning[0].clone()
+            merged.cond = mk_or(*[q.cond for q in returning])
+            subpaths = [q for q in subpaths if q not in returning] + [merged]
+            returning = [merged]
         if returning and not effectful:
             out = []
             rest_cond = p.cond
